@@ -129,6 +129,30 @@ Proof.
   - intros b Hb. apply in_map_iff in Hb as (s & <- & _). apply lrec_body_plain.
 Qed.
 
+(* ---- concurrent-request observations *)
+Definition hobs_body (h : hobs) : list tok :=
+  tnat (h_class h) :: tbool (h_enabled h) :: print_scope (h_scope h) ++ attrs_toks (h_attrs h).
+Lemma parse_hobs_body : forall h, parse_hobs (hobs_body h) = Some h.
+Proof.
+  intros [c e [a b c'] at']. unfold hobs_body, parse_hobs, print_scope, tnat. cbn [h_class h_enabled h_scope h_attrs sc_name sc_ver sc_schema app].
+  rewrite parse_attrs_toks. destruct e; cbn; now rewrite Nat2Z.id.
+Qed.
+Lemma hobs_body_plain : forall h, plain "H" (hobs_body h).
+Proof.
+  intros h t Ht. unfold hobs_body, print_scope in Ht. cbn in Ht.
+  destruct Ht as [<- | Ht]; [reflexivity|]. destruct Ht as [<- | Ht]; [now destruct (h_enabled h)|].
+  repeat (destruct Ht as [<- | Ht]; [reflexivity|]). now apply (attrs_toks_plain "H" (h_attrs h)).
+Qed.
+Lemma parse_print_prace : forall hs, parse_prace_obs (flat_map print_hobs hs) = Some hs.
+Proof.
+  intros hs. unfold parse_prace_obs.
+  change (flat_map print_hobs hs) with (flat_map (fun h => tag "H" :: hobs_body h) hs).
+  rewrite (flat_map_cons_map "H" hobs_body), tagged_members_print.
+  - apply (all_some_map parse_hobs hobs_body). apply parse_hobs_body.
+  - reflexivity.
+  - intros b Hb. apply in_map_iff in Hb as (s & <- & _). apply hobs_body_plain.
+Qed.
+
 Lemma parse_flag_print : forall (name : string) b, is_tag name (tag name) = true -> parse_flag name [tag name; tbool b] = Some b.
 Proof. intros name b H. unfold parse_flag. rewrite H. now destruct b. Qed.
 Lemma parse_flag2_print : forall (name : string) b n, is_tag name (tag name) = true ->
@@ -142,13 +166,14 @@ Proof. intros l c H. unfold run_model. rewrite H. now destruct c. Qed.
 Lemma run_spec_on_model : forall l c, parse_case l = Some c -> case_good c -> run_spec l (run_model l) = spec_on c.
 Proof.
   intros l c H G. rewrite (run_model_obs l c H). unfold run_spec. rewrite H.
-  destruct c as [s | s | k raw s | r d vs keys ops | r d ops | r d ops]; cbn [model_obs spec_on].
+  destruct c as [s | s | k raw s | r d vs keys ops | r d ops | r d ops | kind r d threads]; cbn [model_obs spec_on].
   - now rewrite parse_flag2_print.
   - change (tbool (validate_unit_nr s)) with (print_obool (Some (validate_unit_nr s))). now rewrite parse_flag2_print.
   - cbn in G. destruct (pred_model k raw s) as [b|]; [now rewrite parse_flag_print | contradiction].
   - rewrite parse_print_met. now destruct (run_met r d vs keys ops).
   - now rewrite parse_print_tr.
   - now rewrite parse_print_lg.
+  - now rewrite parse_print_prace.
 Qed.
 
 Lemma model_meets_spec_wire_lemma : forall l c, parse_case l = Some c -> case_good c -> run_spec l (run_model l) = [].
